@@ -1,4 +1,5 @@
 // C04 for Alma: the normalised positively weighted mean reproduces constants, is monotone and commutes with x -> a x + b
+use crate::props::c00_affine::*;
 use crate::props::c04_averages::*;
 
 pub proof fn lemma_dot_affine(g: Seq<T>, w: Seq<T>, a: real, b: real)
